@@ -31,6 +31,9 @@ type Ctx struct {
 	makeClosures map[*ssa.Function][]*ssa.MakeClosure // closure fn -> creation sites
 	cellStores   map[*ssa.Alloc][]*ssa.Store          // alloc -> every store whose address resolves to it
 	reachCache   map[*ssa.UnOp]*ssa.Store             // load of a multi-store cell -> the one store it sees
+	immutCache   map[string]bool
+	implCache    map[string]*ssa.Function
+	immutMutable map[string]bool
 	Files        []string
 	GOARCH       string
 	wordBits     int
@@ -263,6 +266,13 @@ func (c *Ctx) resolve(v ssa.Value, seen map[ssa.Value]bool) ssa.Value {
 			if x.Op != token.MUL {
 				return v
 			}
+			if fa, isFA := x.X.(*ssa.FieldAddr); isFA {
+				if r := c.immutableFieldLoad(x, fa, seen); r != nil && r != v {
+					v = r
+					continue
+				}
+				return v
+			}
 			root := c.addrRoot(x.X)
 			a, ok := root.(*ssa.Alloc)
 			if !ok {
@@ -418,7 +428,56 @@ func (c *Ctx) Func(name string) *ssa.Function {
 	if f := c.Pkg.Func(name); f != nil && f.Blocks != nil {
 		return f
 	}
-	return c.funcByRole(name)
+	if f := c.funcByRole(name); f != nil {
+		return f
+	}
+	return c.implByRole(name)
+}
+
+// implByRole: the request implementation behind an exported BaseClient method, when it no longer is the package function
+// of the reference tree (made a method, say): the one function of the package that the exported method calls and that
+// writes to the transport through (*BaseClient).write.
+func (c *Ctx) implByRole(name string) *ssa.Function {
+	api := map[string]string{"publishImpl": "Publish", "subscribeImpl": "Subscribe", "unsubscribeImpl": "Unsubscribe"}[name]
+	if api == "" {
+		return nil
+	}
+	if c.implCache == nil {
+		c.implCache = map[string]*ssa.Function{}
+	}
+	if f, ok := c.implCache[name]; ok {
+		return f
+	}
+	c.implCache[name] = nil
+	m := c.Method("BaseClient", api)
+	write := c.Method("BaseClient", "write")
+	if m == nil || write == nil {
+		return nil
+	}
+	var hit *ssa.Function
+	n := 0
+	for _, g := range c.calleesOf(m, false) {
+		if g.Pkg != c.Pkg || g.Blocks == nil || g == write {
+			continue
+		}
+		writes := false
+		for _, h := range withClosures(g) {
+			eachInstr(h, func(in ssa.Instruction) {
+				if c.isCallTo(in, write) {
+					writes = true
+				}
+			})
+		}
+		if writes {
+			hit = g
+			n++
+		}
+	}
+	if n != 1 {
+		return nil
+	}
+	c.implCache[name] = hit
+	return hit
 }
 
 // Method finds method `name` on named type `typ` (pointer or value receiver).
@@ -930,3 +989,130 @@ func (c *Ctx) Key(v ssa.Value) string {
 }
 
 func (c *Ctx) Same(a, b ssa.Value) bool { return c.Key(a) == c.Key(b) }
+
+// immutableFieldLoad: v = *(&base.f) where f is a field that is only ever written while its struct is being constructed
+// (every store to it, anywhere in the package, goes into a struct freshly allocated by the storing function). All loads of
+// base.f then see one value: the value stored at construction when base is that allocation, otherwise the first load of
+// base.f in the function stands for all of them.
+func (c *Ctx) immutableFieldLoad(ld *ssa.UnOp, fa *ssa.FieldAddr, seen map[ssa.Value]bool) ssa.Value {
+	pt, ok := fa.X.Type().Underlying().(*types.Pointer)
+	if !ok {
+		return nil
+	}
+	named, ok := pt.Elem().(*types.Named)
+	if !ok || named.Obj().Pkg() == nil || named.Obj().Pkg() != c.Pkg.Pkg {
+		return nil
+	}
+	if !c.fieldImmutable(named, fa.Field) {
+		return nil
+	}
+	s2 := map[ssa.Value]bool{}
+	for k := range seen {
+		s2[k] = true
+	}
+	base := c.resolve(fa.X, s2)
+	if al, isAl := base.(*ssa.Alloc); isAl {
+		var val ssa.Value
+		n := 0
+		for _, u := range *al.Referrers() {
+			if f2, ok := u.(*ssa.FieldAddr); ok && f2.Field == fa.Field {
+				for _, uu := range *f2.Referrers() {
+					if st, ok := uu.(*ssa.Store); ok && st.Addr == ssa.Value(f2) {
+						val = st.Val
+						n++
+					}
+				}
+			}
+		}
+		if n == 1 {
+			return val
+		}
+		if n == 0 && al.Parent() == ld.Parent() {
+			return nil // zero value
+		}
+		return nil
+	}
+	// representative: the first load of base.f in this function
+	f := ld.Parent()
+	if f == nil {
+		return nil
+	}
+	for _, b := range f.Blocks {
+		for _, in := range b.Instrs {
+			l2, ok := in.(*ssa.UnOp)
+			if !ok || l2.Op != token.MUL {
+				continue
+			}
+			f2, ok := l2.X.(*ssa.FieldAddr)
+			if !ok || f2.Field != fa.Field || !types.Identical(f2.X.Type(), fa.X.Type()) {
+				continue
+			}
+			s3 := map[ssa.Value]bool{}
+			if c.resolve(f2.X, s3) == base {
+				if l2 == ld {
+					return nil
+				}
+				return l2
+			}
+		}
+	}
+	return nil
+}
+
+// fieldImmutable: no store to field k of struct T in the package other than into a struct the storing function has just
+// allocated, no whole-struct store over an existing T, and the field's address is never taken for anything but loads/stores.
+func (c *Ctx) fieldImmutable(named *types.Named, k int) bool {
+	if c.immutCache == nil {
+		c.immutCache = map[string]bool{}
+		mutable := map[string]bool{}
+		key := func(t types.Type, i int) string { return fmt.Sprintf("%s#%d", t.String(), i) }
+		for _, f := range c.Funcs {
+			eachInstr(f, func(in ssa.Instruction) {
+				switch x := in.(type) {
+				case *ssa.FieldAddr:
+					pt, ok := x.X.Type().Underlying().(*types.Pointer)
+					if !ok {
+						return
+					}
+					nt, ok := pt.Elem().(*types.Named)
+					if !ok {
+						return
+					}
+					_, fresh := x.X.(*ssa.Alloc)
+					for _, u := range *x.Referrers() {
+						switch y := u.(type) {
+						case *ssa.Store:
+							if y.Addr == ssa.Value(x) {
+								if !fresh {
+									mutable[key(nt, x.Field)] = true
+								}
+							} else {
+								mutable[key(nt, x.Field)] = true // the field's address is stored somewhere
+							}
+						case *ssa.UnOp, *ssa.DebugRef:
+						case *ssa.FieldAddr, *ssa.IndexAddr:
+							// a nested aggregate: parts of it may be written through this address
+							mutable[key(nt, x.Field)] = true
+						default:
+							mutable[key(nt, x.Field)] = true
+						}
+					}
+				case *ssa.Store:
+					// *p = T{…} over an existing object
+					if nt, ok := x.Val.Type().(*types.Named); ok {
+						if st, isStruct := nt.Underlying().(*types.Struct); isStruct {
+							if _, fresh := x.Addr.(*ssa.Alloc); !fresh {
+								for i := 0; i < st.NumFields(); i++ {
+									mutable[key(nt, i)] = true
+								}
+							}
+						}
+					}
+				}
+			})
+		}
+		c.immutMutable = mutable
+	}
+	k2 := fmt.Sprintf("%s#%d", named.String(), k)
+	return !c.immutMutable[k2]
+}
